@@ -152,6 +152,20 @@ impl<'a> PrettyPrinter<'a> {
     pub(super) fn convert_binary_chain(&'a self, ctx: Context, binary: Binary<'a>) -> ArenaDoc<'a> {
         let op = binary.op();
         let prec = op.precedence();
+        // The `in` tokens that belong to a `not in`. Other operators of the chain can have the same
+        // precedence, so this cannot be decided from the outermost operator alone.
+        let mut not_in_ops = vec![];
+        for node in resolve_binary_chain(binary) {
+            let mut seen_not = false;
+            for child in node.children() {
+                match child.kind() {
+                    SyntaxKind::Not => seen_not = true,
+                    SyntaxKind::In if seen_not => not_in_ops.push(child.span()),
+                    kind if !kind.is_trivia() => seen_not = false,
+                    _ => {}
+                }
+            }
+        }
         ChainStylist::new(self)
             .process_resolved(
                 ctx,
@@ -161,8 +175,8 @@ impl<'a> PrettyPrinter<'a> {
                         .is_some_and(|binary| binary.op().precedence() == prec)
                 },
                 |child| {
-                    if child.kind() == SyntaxKind::In && op == BinOp::NotIn {
-                        Some(self.arena.text(op.as_str()))
+                    if child.kind() == SyntaxKind::In && not_in_ops.contains(&child.span()) {
+                        Some(self.arena.text(BinOp::NotIn.as_str()))
                     } else {
                         BinOp::from_kind(child.kind()).map(|op| self.arena.text(op.as_str()))
                     }
